@@ -181,15 +181,31 @@ def body(case):
             z = call(sdss_flagname, g0['name'], 0, concat=True)
             with judge('zero'):
                 check(z == '', 'zero-value-concat', repr(z))
-            with judge('flagexist-unknown'):
-                check(call(sdss_flagexist, bg, l0) is False, 'flagexist:unknown-group')
-                check(tuple(call(sdss_flagexist, bg, l0, flagexist=True)) == (False, False), 'flagexist:unknown-group-tuple')
-                r = call(sdss_flagexist, g0['name'].lower(), [l0.lower(), bl], flagexist=True, whichexist=True)
-                check(r[0] is False and r[1] is True and list(r[2]) == [True, False], 'flagexist:per-label', repr(r))
-                r = call(sdss_flagexist, g0['name'], [bl, l0], whichexist=True)
-                check(r[0] is False and list(r[1]) == [False, True], 'flagexist:whichexist', repr(r))
-                r = call(sdss_flagexist, bg, [bl, l0], flagexist=True, whichexist=True)
-                check(r[0] is False and r[1] is False and list(r[2]) == [False, False], 'flagexist:unknown-group-which', repr(r))
+            # existence query: every combination of (known / unknown group) x (label given as a string / list) x (flagexist, whichexist)
+            known_l = {l for l, b in g0['labels']}
+            for grp in (g0['name'], g0['name'].lower(), bg):
+                gok = grp.upper() in real
+                for labels in (l0, l0.lower(), bl, [l0], [bl], [l0, bl], [bl, l0], [bl, bl + 'X', l0]):
+                    lablist = [labels] if isinstance(labels, str) else list(labels)
+                    which = [gok and (x.upper() in known_l) for x in lablist]
+                    allok = all(which) and gok
+                    for fe in (False, True):
+                        for we in (False, True):
+                            r = call(sdss_flagexist, grp, labels, flagexist=fe, whichexist=we)
+                            with judge('flagexist'):
+                                if fe and we:
+                                    want = (allok, gok, which)
+                                    got = (bool(r[0]), bool(r[1]), [bool(x) for x in r[2]]) if isinstance(r, tuple) and len(r) == 3 else r
+                                elif fe:
+                                    want = (allok, gok)
+                                    got = (bool(r[0]), bool(r[1])) if isinstance(r, tuple) and len(r) == 2 else r
+                                elif we:
+                                    want = (allok, which)
+                                    got = (bool(r[0]), [bool(x) for x in r[1]]) if isinstance(r, tuple) and len(r) == 2 else r
+                                else:
+                                    want = allok
+                                    got = bool(r) if isinstance(r, (bool, np.bool_)) else r
+                                check(got == want, 'flagexist:wrong-answer', lambda: dict(group=grp, labels=labels, flagexist=fe, whichexist=we, got=repr(r), want=repr(want)))
 
 
 def classify(case):
